@@ -66,7 +66,14 @@ type Reader struct {
 	buf *bytes.Reader
 	// headLen is the number of bytes the head last read by readHead occupied
 	headLen int
+	// skipDepth is the nesting depth of the container being skipped (see maxSkipDepth)
+	skipDepth int
 }
+
+// maxSkipDepth bounds the nesting of structs, lists and maps inside a field that is skipped: skipping
+// recurses once per level, and a few megabytes of nested heads would otherwise exhaust the goroutine stack,
+// which is fatal for the whole process.
+const maxSkipDepth = 10000
 
 //go:nosplit
 func bWriteU8(w *bytes.Buffer, data uint8) error {
@@ -462,6 +469,13 @@ func (b *Reader) skipFieldSimpleList() error {
 }
 
 func (b *Reader) skipField(ty byte) error {
+	if ty == MAP || ty == LIST || ty == StructBegin {
+		if b.skipDepth >= maxSkipDepth {
+			return fmt.Errorf("nesting deeper than %d levels", maxSkipDepth)
+		}
+		b.skipDepth++
+		defer func() { b.skipDepth-- }()
+	}
 	switch ty {
 	case BYTE:
 		b.Skip(1)
